@@ -2,6 +2,7 @@ package main
 
 import (
 	"fmt"
+	"go/token"
 	"go/types"
 
 	"golang.org/x/tools/go/ssa"
@@ -53,7 +54,53 @@ func addrPrivate(v ssa.Value, seen map[ssa.Value]bool) bool {
 					}
 				}
 			}
-			if !closureOnlyCalled(x, seen) {
+			if !closureOnlyCalled(x, seen) && !bindingsReadOnly(x, v) {
+				return false
+			}
+		default:
+			return false
+		}
+	}
+	return true
+}
+
+// bindingsReadOnly: inside the closure, the free variables bound to v are only ever read (loaded,
+// possibly through field/index addressing, or handed on to closures that only read them). Such a
+// closure may run anywhere - started with go, stored, passed on - without being able to change the
+// variable, so the variable keeps the value its owner last stored.
+func bindingsReadOnly(mc *ssa.MakeClosure, v ssa.Value) bool {
+	fn, _ := mc.Fn.(*ssa.Function)
+	if fn == nil {
+		return false
+	}
+	for i, b := range mc.Bindings {
+		if b == v {
+			if i >= len(fn.FreeVars) || !addrReadOnly(fn.FreeVars[i], map[ssa.Value]bool{}) {
+				return false
+			}
+		}
+	}
+	return true
+}
+
+func addrReadOnly(v ssa.Value, seen map[ssa.Value]bool) bool {
+	if seen[v] {
+		return true
+	}
+	seen[v] = true
+	refs := v.Referrers()
+	if refs == nil {
+		return false
+	}
+	for _, r := range *refs {
+		switch x := r.(type) {
+		case *ssa.DebugRef:
+		case *ssa.UnOp:
+			if x.Op != token.MUL {
+				return false
+			}
+		case *ssa.MakeClosure:
+			if !bindingsReadOnly(x, v) {
 				return false
 			}
 		default:
@@ -222,7 +269,7 @@ func cellPrivate(v ssa.Value, seen map[ssa.Value]bool) bool {
 					}
 				}
 			}
-			if !closureRunsInPlace(x) {
+			if !closureRunsInPlace(x) && !bindingsReadOnly(x, v) {
 				return false
 			}
 		default:
